@@ -30,6 +30,8 @@ FreshStartsEmpty == [][(l <= Len(T.ops) /\ T.ops[l].op = "fresh") => slot' = "un
 \* input that is converted on the way in arrives as the documented value (UTF-8 text with surrogate escapes; the same wall
 \* clock at UTC) -- whatever locale or time zone the process runs in
 ConvertedAsDocumented == [][(l <= Len(T.ops) /\ T.ops[l].op = "convert") => T.ops[l].conv_ok]_vars
+\* a value taken from another record's field is only READ: that record stays as it was, accepted or not
+SourceUntouched == [][(l <= Len(T.ops) /\ T.ops[l].op = "assign_from") => ~T.ops[l].src_changed]_vars
 \* a record that accepted all its assignments can always be serialised, and decodes to typed slots again
 Serialisable == (fin.done /\ fin.all_accepted) => (fin.packed /\ fin.decoded_typed)
 =============================================================================
